@@ -9,6 +9,7 @@ import (
 
 	"github.com/bytemare/secp256k1/internal/verif/checks"
 	"github.com/bytemare/secp256k1/internal/verif/ev"
+	"github.com/bytemare/secp256k1/internal/verif/prelude"
 	"github.com/bytemare/secp256k1/internal/verif/ref"
 	"github.com/bytemare/secp256k1/internal/verif/verifrt"
 )
@@ -18,6 +19,8 @@ func main() {
 		fmt.Fprintln(os.Stderr, "usage: vreal <part> | replay <property> <file> | selfcheck | list")
 		os.Exit(2)
 	}
+
+	prelude.HostileCaller()
 
 	if err := ref.SelfCheck(); err != nil {
 		fmt.Fprintln(os.Stderr, "TOOL-ERROR: oracle self-check failed:", err)
